@@ -215,7 +215,7 @@ func checkC06(c *Ctx) error {
 		for k := 0; k < 4; k++ {
 			m := base.Clone()
 			for j := 0; j <= k; j++ {
-				gen.Inject(r, &m, []string{"missing-param", "missing-service"}[r.Intn(2)], j)
+				gen.Inject(r, &m, []string{"missing-param", "missing-service", "missing-mixed"}[r.Intn(3)], j)
 			}
 			jobs = append(jobs, &m)
 		}
@@ -275,7 +275,8 @@ func checkC06(c *Ctx) error {
 				op := u.Ops[i]
 				if op.Op == "param" || op.Op == "get" || op.Op == "getctx" || op.Op == "tagged" || op.Op == "getter" || op.Op == "getterctx" {
 					// fetching an environment variable that is not set also says "does not exist": only container lookups count
-					if strings.Contains(r.Err, "environment variable") && !strings.Contains(r.Err, "param does not exist") && !strings.Contains(r.Err, "service does not exist") {
+					// (the text is in Err for the error-returning accessors and in Panic for the Must variants)
+					if txt := r.Err + r.Panic; strings.Contains(txt, "environment variable") && !strings.Contains(txt, "param does not exist") && !strings.Contains(txt, "service does not exist") {
 						continue
 					}
 					c.Violate("runtime-does-not-exist", fmt.Sprintf("unit %s op %s %s: accepted configuration fails at run time: %s%s", u.ID, op.Op, op.Name, r.Err, r.Panic), unitFiles(u))
